@@ -87,7 +87,7 @@ class C09(Check):
         "shape under return_record_name* is not asserted for unions holding by-name references (documented approximation)",
     ]
     required_labels = ["multi-conforming", "hint:tuple", "hint:-type", "hint:wrong", "float-deferral", "record-tie", "closure", "shape:named", "shape:named-override-single", "logical-family", "no-tuple-notation"]
-    quick = (1800, 1)
+    quick = (4000, 1)
     thorough = (10000, 16)
 
     def __init__(self):
